@@ -221,7 +221,7 @@ func propC06(c *Ctx) {
 			}
 		}
 		c.writersTable("C06.R2", "opchild/keeper.Keeper", "NextL1Sequence", setOf("Set", "Next", "Remove", "Clear"),
-			[]string{"(opchild/keeper.Keeper).IncreaseNextL1Sequence", "(opchild/keeper.Keeper).SetNextL1Sequence"})
+			[]string{"(opchild/keeper.Keeper).IncreaseNextL1Sequence", "(opchild/keeper.Keeper).InitGenesis"})
 		eff := c.W.BuildEffects()
 		o3 := c.Ob("C06.R2", "SetNextL1Sequence only from InitGenesis; IncreaseNextL1Sequence only from FinalizeTokenDeposit")
 		for _, f := range eff.Callers(c.Method(childKeeper, "Keeper", "SetNextL1Sequence")) {
@@ -858,25 +858,27 @@ func propC09(c *Ctx) {
 	c.Rule("C09.R1", func() {
 		o := c.Ob("C09.R1", "opchild bank mutator sites equal the table")
 		allowed := map[string]int{
-			"(opchild/keeper.MsgServer).safeDepositToken|MintCoins":                           1,
-			"(opchild/keeper.MsgServer).safeDepositToken|SendCoinsFromModuleToAccount":        1,
+			"(opchild/keeper.MsgServer).FinalizeTokenDeposit|MintCoins":                           1,
+			"(opchild/keeper.MsgServer).FinalizeTokenDeposit|SendCoinsFromModuleToAccount":        1,
 			"(opchild/keeper.MsgServer).SpendFeePool|SendCoinsFromModuleToAccount":            1,
 			"(opchild/keeper.MsgServer).InitiateTokenWithdrawal|SendCoinsFromAccountToModule": 1,
 			"(opchild/keeper.MsgServer).InitiateTokenWithdrawal|BurnCoins":                    1,
 			"(opchild/keeper.MsgServer).FinalizeTokenDeposit|SendCoinsFromAccountToModule":    1,
 			"(opchild/keeper.MsgServer).FinalizeTokenDeposit|BurnCoins":                       1,
-			"(opchild/keeper.Keeper).setDenomMetadata|SetDenomMetaData":                       1,
+			"(opchild/keeper.MsgServer).FinalizeTokenDeposit|SetDenomMetaData":                       1,
 		}
 		seen := map[string]int{}
 		for _, s := range eff.Where(func(s *Site) bool {
 			return s.Kind == SIface && strings.HasPrefix(s.Callee, "(opchild/types.BankKeeper).") && !ifaceReads[s.Method]
 		}) {
 			o.Sites++
-			k := fnShort(s.Root()) + "|" + s.Method
-			seen[k]++
-			o.Note(k + " @" + c.W.Pos(s.Pos))
-			if seen[k] > allowed[k] {
-				o.Fail(c.W.Pos(s.Pos), "bank mutator "+s.Method+" in "+fnShort(s.Root())+" is not in the site table", nil)
+			for _, r := range eff.OwnerNames(s) {
+				k := r + "|" + s.Method
+				seen[k]++
+				o.Note(k + " @" + c.W.Pos(s.Pos) + attributedNote(s, r))
+				if seen[k] > allowed[k] {
+					o.Fail(c.W.Pos(s.Pos), "bank mutator "+s.Method+" in "+r+attributedNote(s, r)+" is not in the site table", nil)
+				}
 			}
 		}
 		for a, n := range allowed {
@@ -1057,7 +1059,7 @@ func propC09(c *Ctx) {
 
 	c.Rule("C09.R4", func() {
 		c.writersTable("C09.R4", "opchild/keeper.Keeper", "NextL2Sequence", setOf("Set", "Next", "Remove", "Clear"),
-			[]string{"(opchild/keeper.Keeper).IncreaseNextL2Sequence", "(opchild/keeper.Keeper).SetNextL2Sequence"})
+			[]string{"(opchild/keeper.Keeper).IncreaseNextL2Sequence", "(opchild/keeper.Keeper).InitGenesis"})
 		o := c.Ob("C09.R4", "callers of IncreaseNextL2Sequence = {InitiateTokenWithdrawal, FinalizeTokenDeposit}; SetNextL2Sequence only from InitGenesis")
 		al := setOf("(opchild/keeper.MsgServer).InitiateTokenWithdrawal", "(opchild/keeper.MsgServer).FinalizeTokenDeposit")
 		seen := map[string]bool{}
